@@ -93,7 +93,7 @@ CLAIMED = {
           "quoted local parts, source routes, address literals and the decoded parameter values are decided by the reference-grammar judge and the correspondence; four lenient-parser classes are known findings"),
  "C12": C("C12_caps_exact proved for all configurations and TLS states (all limits and mechanism lists), C12_ehlo_reply, C12_helo_none, "
           "C12_disabled_504 proved; advertised <=> honoured: caps_keywords (the keywords of the list, in order), C12_starttls_honoured (listed exactly when the command is accepted, else 502), "
-          "C12_auth_honoured (listed exactly when authentication is possible; 523 where it is not allowed), C12_keyword_iff_enabled (SMTPUTF8, REQUIRETLS, BINARYMIME, DSN, RRVS, LIMITS); the complete 3072-point configuration space enumerated on the real server (TLS-active points over a real "
+          "C12_auth_honoured (listed exactly when authentication is possible; 523 where it is not allowed), C12_keyword_iff_enabled (SMTPUTF8, REQUIRETLS, BINARYMIME, DSN, RRVS, LIMITS); the complete 4608-point configuration space (backend: plain Session, AuthSession with mechanisms, AuthSession without) enumerated on the real server (TLS-active points over a real "
           "handshake) with one probe command per extension.",
           "DESIGN.md 7 C12", "Lean 4 proof + exhaustive configuration enumeration (conv probe)", "crypto/tls not modelled"),
  "C13": C("Proved: C13_mechanism (conn.go's statusCollector as it is built - one buffered channel per distinct address with capacity = "
